@@ -21,6 +21,7 @@ macro_rules! properties {
 properties! {
     "C01" => c01,
     "C02" => c02,
+    "C03" => c03,
     "C04" => c04,
     "C05" => c05,
     "C06" => c06,
